@@ -9,7 +9,9 @@ import (
 // yamlDoc returns a document: fully symbolic (shape 0) or one of the
 // part-concrete shapes the property names.
 func yamlDoc(n int) string {
-	switch vxrt.Choice("yaml-shape", vxrt.Param("shapes", 6)) {
+	switch vxrt.Choice("yaml-shape", vxrt.Param("shapes", 7)) {
+	case 6: // line-structured around the storage tokens
+		return structText("doc", 2)
 	case 0:
 		return vxrt.Text("doc", vxrt.Len("doc-len", 0, n))
 	case 1: // multi-document stream
